@@ -914,7 +914,7 @@ fn reset_after_last_messages(n: usize) -> Result<Option<u64>, String> {
 
 fn loopback_part(tier: Tier, out: &mut Outcome, bad: &mut Vec<Bad>) {
     let counts: Vec<usize> = if tier.quick() { vec![1, 2, 3, 4, 7, 12, 16] } else { (1..=48).collect() };
-    let sizes: Vec<usize> = if tier.quick() { vec![2, 130, 1197, 1200] } else { vec![2, 3, 129, 130, 131, 1196, 1197, 1198, 1199, 1200] };
+    let sizes: Vec<usize> = if tier.quick() { vec![2, 130, 256, 512, 1197, 1200] } else { vec![2, 3, 129, 130, 131, 255, 256, 257, 512, 768, 1024, 1196, 1197, 1198, 1199, 1200] };
     let mut runs = 0u64;
     let mut inconclusive = 0u64;
     let mut outcomes = BTreeSet::new();
